@@ -329,6 +329,9 @@ func (db *DB) setActiveSchemaVersion(
 		// For now, we assume that each collection can only have a single source.  This will likely need
 		// to change later.
 		activeCol, rootCol, isActiveFound = db.getActiveCollectionDown(ctx, colsByID, sources[0].SourceCollectionID)
+	} else {
+		// The collection is the first version, all the other versions descend from it.
+		rootCol = col
 	}
 	if !isActiveFound {
 		// We need to look both down and up for the active version - the most recent is not necessarily the active one.
